@@ -88,6 +88,37 @@ def run_driver(binary, test, env=None, timeout=3600, cwd=None, ok_rc=(0,)):
     return out
 
 
+def run_driver_sharded(binary, test, inputs, trace, shards=12, env=None, timeout=3600):
+    """Run a single-worker driver as `shards` parallel processes over a round-robin split of the
+    input file (each process has its own embedded etcd / miniredis); traces are concatenated."""
+    from concurrent.futures import ThreadPoolExecutor
+    lines = read_lines(inputs)
+    shards = max(1, min(shards, len(lines)))
+    parts = []
+    for i in range(shards):
+        pi, ti = "%s.s%d" % (inputs, i), "%s.s%d" % (trace, i)
+        with open(pi, "w") as f:
+            f.write("\n".join(lines[i::shards]) + "\n")
+        parts.append((pi, ti))
+
+    def one(pt):
+        e = dict(env or {})
+        e.update({"VERIF_INPUTS": pt[0], "VERIF_TRACE": pt[1]})
+        return run_driver(binary, test, env=e, timeout=timeout)
+    try:
+        with ThreadPoolExecutor(max_workers=shards) as ex:
+            outs = list(ex.map(one, parts))
+        with open(trace, "w") as f:
+            for _, ti in parts:
+                f.write(open(ti).read())
+    finally:
+        for pi, ti in parts:
+            for x in (pi, ti):
+                if os.path.exists(x):
+                    os.remove(x)
+    return "\n".join(outs)
+
+
 # --------------------------------------------------------------------------- TLC
 class TLCResult:
     def __init__(self):
